@@ -10,7 +10,7 @@ species must raise IndexError and leave the state untouched.  Workload: bounded-
 sequences over a small alphabet on 4-site supercells, and random histories of 200 events on
 random 3-D supercells.  A failing history is shrunk by event deletion and stored as the witness.
 """
-import itertools, json, operator, warnings, zlib
+import itertools, json, operator, traceback, warnings, zlib
 import numpy as np
 from vmon import gen
 from vmon.util import Mon
@@ -498,7 +498,11 @@ def exh_alphabet(ctx, big):
 
 
 def run_exhaustive(case, mon):
-    ctx = exh_ctx(case['cfg'], case['seed'])
+    try:
+        ctx = exh_ctx(case['cfg'], case['seed'])
+    except Exception as e:
+        mon.check(False, 'C28:construct:raises:' + type(e).__name__, 'exhaustive configuration %s: %s' % (case['cfg'], traceback.format_exc()[-800:]), ['exhaustive'])
+        return {'exhaustive': case['cfg']}
     A = exh_alphabet(ctx, case['big'])
     prefix = [A[i] for i in case['prefix']]
     depth = case['depth']
@@ -582,7 +586,13 @@ def run_random(case, mon):
             if crys.Nchem > 1 and rng.uniform() < 0.5: interstitial = (int(rng.integers(crys.Nchem)),)
             elif crys.Nchem == 1 and rng.uniform() < 0.1: interstitial = (0,)
             nosym = bool(rng.uniform() < 0.2)
-            ctx = Ctx(crys, S, interstitial, nsol, nosym, named)
+            try:
+                ctx = Ctx(crys, S, interstitial, nsol, nosym, named)
+            except Exception as e:
+                mon.check(False, 'C28:construct:raises:' + type(e).__name__, 'S=%s interstitial=%s Nsolute=%d NOSYM=%s named=%s: %s' % (
+                    S.tolist(), interstitial, nsol, nosym, named, traceback.format_exc()[-800:]), ['random'])
+                ctx = None
+        if ctx is None: continue
         tags = ['random'] + (['NOSYM'] if ctx.nosym else []) + (['interstitial'] if ctx.interstitial else [])
         events = [rand_event(rng, ctx) for _ in range(200)]
         P = Probe()
